@@ -15,7 +15,7 @@ def sh(*a, **k):
 
 
 def ensure():
-    marker = os.path.join(DIR, 'ok-v2')
+    marker = os.path.join(DIR, 'ok-v3')
     if os.path.exists(marker):
         return DIR
     import shutil
@@ -64,9 +64,9 @@ commonName = supplied
         else:
             args += ['-days', '365']
         sh(*args)
-    leaf('trusted', 'DNS:localhost,IP:127.0.0.1')
-    leaf('wrongname', 'DNS:other.example,IP:192.0.2.77')
-    leaf('selfsigned', 'DNS:localhost,IP:127.0.0.1', signer='self')
-    leaf('expired', 'DNS:localhost,IP:127.0.0.1', start='20200101000000Z', end='20210101000000Z')
+    leaf('trusted', 'DNS:localhost,IP:127.0.0.1,IP:::1')
+    leaf('wrongname', 'DNS:other.example,IP:192.0.2.77,IP:2001:db8::77')
+    leaf('selfsigned', 'DNS:localhost,IP:127.0.0.1,IP:::1', signer='self')
+    leaf('expired', 'DNS:localhost,IP:127.0.0.1,IP:::1', start='20200101000000Z', end='20210101000000Z')
     open(marker, 'w').write('ok')
     return DIR
